@@ -184,6 +184,16 @@ namespace embedded_pairing::bls12_381 {
         tmp2.add(a.c0, a.c1);
         tmp3.add(a.c0, a.c2);
 
+        /*
+         * All sums of b's components are computed before the first write to
+         * this, so that the result is correct when this and b are the same
+         * object (as is already the case for a).
+         */
+        Fq2 tmp4;
+        Fq2 tmp5;
+        tmp4.add(b.c0, b.c2);
+        tmp5.add(b.c0, b.c1);
+
         this->c0.add(b.c1, b.c2);
         this->c0.multiply(this->c0, tmp1);
         this->c0.subtract(this->c0, b_b);
@@ -191,14 +201,12 @@ namespace embedded_pairing::bls12_381 {
         this->c0.multiply_by_nonresidue(this->c0);
         this->c0.add(this->c0, a_a);
 
-        this->c2.add(b.c0, b.c2);
-        this->c2.multiply(this->c2, tmp3);
+        this->c2.multiply(tmp4, tmp3);
         this->c2.subtract(this->c2, a_a);
         this->c2.add(this->c2, b_b);
         this->c2.subtract(this->c2, c_c);
 
-        this->c1.add(b.c0, b.c1);
-        this->c1.multiply(this->c1, tmp2);
+        this->c1.multiply(tmp5, tmp2);
         this->c1.subtract(this->c1, a_a);
         this->c1.subtract(this->c1, b_b);
         c_c.multiply_by_nonresidue(c_c);
